@@ -33,6 +33,13 @@ def run(ctx, res):
     import panics as _p
     lists.rule_error_propagation(prog, engine.Filtered(res, {"E-prop"}), _p.closure(prog, _p.ENC_ROOTS), side="encode", floor=1000 if "all_msgs" in set(prog.crate["features"]) else 1)
     dispatch.decode_table(prog, engine.Filtered(res, {"E-map"}, ("return-shape", "corrupt-arm", "typed-arm", "arm-complete", "default-arm", "empty-arm")), rule="E-map")
+    # "a body shorter than its counts imply is Corrupt" rests on the parser seeing exactly the payload: data() = input[3..L+3] (A-out / A-sem,
+    # not the checksum bytes behind it) and from_message_frame building its Parser over data() at bit 12 (D-par)
+    import framing
+    m_ = framing.rules_new(prog, engine.Filtered(res, {"A-out", "A-shape"}))
+    dec_ = dispatch.decode_table(prog, engine.Filtered(res, set()))
+    if dec_:
+        dispatch.parser_rule(prog, engine.Filtered(res, {"D-par"}), dec_)
     bitio.rule_guard_cursor(prog, res, bitio.PARSE, 2)
     bitio.import_transport(prog, res, signed=False)
     # message 1029's text is a count-prefixed string as well (character count, byte count, bytes): its count / limit / byte-loop rules
